@@ -198,6 +198,7 @@ def validBinderLen (n : Nat) : Bool := n == 32 || n == 48
 def pskEarly (fake omitEmpty sessionSet : Bool) (ids : List (Bytes × Nat)) (binders : List Bytes) : Option ReadRes :=
   if omitEmpty = false ∧ (if fake = true ∨ sessionSet = true then pskExtLen ids binders else 0) = 0 then
     some (.err "empty-psk")
+  else if fake = false ∧ sessionSet = false then some .eof0   -- real PSK without a session: `Len() = 0`, nothing written
   else if fake = true ∧ (binders.all fun x => validBinderLen x.length) = false then some (.err "binder-size")
   else if pskExtLen ids binders = 0 then some .eof0
   else none
@@ -440,7 +441,10 @@ where
                 | some (payload, _) =>
                   -- (after the repair of D01) a payload shorter than the AEAD tag is rejected
                   if payload.length < 16 then .err
-                  else .ok (.greaseECH kdf aead cid (List.replicate enc.length 0) (List.replicate payload.length 0))
+                  else
+                    -- an empty key is indistinguishable from "unset": `init()` then draws a fresh 32-byte X25519 key
+                    let encLen := if enc.length = 0 then 32 else enc.length
+                    .ok (.greaseECH kdf aead cid (List.replicate encLen 0) (List.replicate payload.length 0))
                 | none => .err
               | none => .err
             | none => .err
